@@ -123,6 +123,9 @@ class SourceAD(MVPN):
                 f'Unsupported Source Active A-D Route Multicast Source IP length ({sourceiplen * 8} bits). Expected 32 bits (IPv4) or 128 bits (IPv6).',
             )
         cursor += sourceiplen
+        if cursor >= len(packed):
+            # an IPv6 source length inside a route of the IPv4 size: the group length would be read past the end
+            raise Notify(3, 5, f'Multicast Source IP length ({sourceiplen * 8} bits) does not fit the route ({datalen} bytes).')
 
         # Validate group IP length
         groupiplen = int(packed[cursor] / 8)
